@@ -81,6 +81,12 @@ CHECKS = {
         text="Stacks of up to 4 layers of every executor type (with_asyncio outermost included) over a manual or thread-pool base, with a recording tap below every layer, are shut down while idle, queued, between retries, polling or running, with 0-2 submitters racing: shutdown() must return; later submits raise exactly the documented RuntimeError; a second shutdown returns; every level down the chain saw exactly one shutdown with the same wait/cancel_futures arguments, inside the first shutdown call; with wait=True every thread the stack created has exited by the time shutdown() returns (the scheduler knows thread exit exactly); racing submits raise that error or return a future.",
         design_ref="DESIGN.md section 4 (C11)", note=ENGINE_NOTE),
 
+    "C12": dict(
+        category="exploration",
+        technique="property-based testing under the deterministic scheduler with the cyclic GC switched off: exhaustive single-pre-emption sweeps of drop / exit-hook / shutdown programs per executor type + Hypothesis-drawn histories; oracle = thread exit bits of the scheduler and weak references to futures, callables, arguments and results; plus a small real-subprocess tier for a real interpreter exit",
+        text="For retry/poll/throttle/timeout executors and stacks: after shutdown, after the last reference is dropped (nothing pending) or after the library's atexit hook ran - each landing at the same instant as other activity, with every single pre-emption placement - every worker thread must have exited; weak references to every finished-and-forgotten future, its callable, argument and result must be dead after gc while the executor lives on (histories include failures, cancels in flight, while queued and during a long back-off); a future still pending when its executor is dropped must complete. Real subprocesses must exit cleanly by themselves (time-out = inconclusive).",
+        design_ref="DESIGN.md section 4 (C12)", note=ENGINE_NOTE + " The exit hook is exercised by calling the function the library registered with atexit; a real interpreter exit is covered only by the subprocess tier."),
+
     "C13": dict(
         category="exploration",
         technique="model-based + metamorphic property testing: exhaustive enumeration of (form x fn behaviour x error_fn behaviour x input outcome x timing) for single layers and reduced two-layer chains, Hypothesis-drawn chains up to 4 with tapes and racing output cancels, compared with the reference function of the statement; pure map chains compared with the single composed map",
